@@ -152,13 +152,14 @@ impl KRange {
         let this = self.as_bounded_range();
         let other = other.as_bounded_range();
 
-        if !(this.contains(&other.start) || this.contains(&other.end)) {
-            return None;
-        }
+        let start = this.start.max(other.start);
+        let end = this.end.min(other.end);
 
-        Some(Self::from(
-            this.start.max(other.start)..this.end.min(other.end),
-        ))
+        if start < end {
+            Some(Self::from(start..end))
+        } else {
+            None
+        }
     }
 
     /// Returns the size of the range if both start and end boundaries are specified
